@@ -16,7 +16,8 @@ ASSUMPTIONS = [
     "(DefaultInstrumentMarketData: L1 volume-weighted mid price, else last public trade price)",
     "a market event is 'newer' when its exchange time is later than the last fill's; a non-newer priced market event "
     "arriving while the estimate still stems from that fill may leave it or recompute it (DESIGN 5.4)",
-    "market events that leave the data state without a price, or arrive without an open position, are not constrained",
+    "a market event after which the data state has no price (candle, liquidation, one-sided / empty L1 before any "
+    "public trade), or that arrives without an open position, is a stutter: the estimate stays as it is (MarkNoPrice)",
     "the bookkeeping of the position (C02) and the data-state price are taken as given: a scenario where they diverge "
     "from the generator's expectation is not judged under C15",
     "L1 events carry last_update_time == time_exchange; public trade prices are f64 (integers in the scenarios)",
@@ -35,7 +36,7 @@ def check(ctx):
     ctx.sample({"kind": "TLC simulated interleaving of fills and market events (first 6 steps)",
                 "scenario": {"evs": scn_m[0]["evs"][:6]}})
     judged = unjudged = 0
-    for mode in ("engine", "state", "instr"):
+    for mode in ("engine", "algo", "state", "instr"):
         j, u = P.replay_results(ctx, "c15", "c15", p_m, len(scn_m), mode, "none", "interleavings")
         judged, unjudged = judged + j, unjudged + u
     j, u = P.replay_results(ctx, "c15", "c15", p_x, len(scn_x), "engine", "none", "fills")
@@ -47,8 +48,8 @@ def check(ctx):
                              "diverge from the specification everywhere (see C02)")
     if unjudged:
         vlib.log("%d scenario run(s) not judged under C15 (bookkeeping / data-state price diverged)" % unjudged)
-    steps = 3000 if ctx.quick else 60000
-    for mode in ("engine", "state"):
+    steps = 2000 if ctx.quick else 40000
+    for mode in ("engine", "algo", "state"):
         P.record_and_validate(ctx, "c15", "c15", mode, steps)
     return ctx.finish()
 
